@@ -41,4 +41,21 @@ Section Quant.
       else let r := dequant c (pred c h) q in
            match dec c (r :: h) qs' es with Some rs => Some (r :: rs) | None => None end
     end.
+
+  (* per-element checks of one run, evaluated by the model itself: every emitted code is non-zero,
+     the decoder's expression equals the encoder's reconstruction, every predicted element is within
+     the bound, every exactly stored element is within the bound *)
+  Variable veq : V -> V -> bool.
+  Variable okb : ctx -> V -> V -> bool.
+  Fixpoint run_checks (c:ctx) (h:list V) (xs:list V) : bool * bool * bool * bool :=
+    match xs with
+    | [] => (true, true, true, true)
+    | x :: xs' =>
+      let p := pred c h in
+      match quant c h p x with
+      | Some (q, r) => let '(a, b, o, ex) := run_checks c (r :: h) xs' in
+                       (negb (q =? 0) && a, veq (dequant c p q) r && b, okb c x r && o, ex)
+      | None => let r := exact c x in let '(a, b, o, ex) := run_checks c (r :: h) xs' in (a, b, o, okb c x r && ex)
+      end
+    end.
 End Quant.
